@@ -809,6 +809,63 @@ ${rec(context, 'end')}
                                   {"kwargs": str(kw), "given": str(snapshot)}, "oracle.kwargs_in_templates")
 
 
+# --------------------------------------------------------------------------- values of context entries
+
+def context_values(ctx):
+    """a key bound in the context is bound whatever its value (None, 0, '', [], False, UNDEFINED): implicit reads in
+    every kind of scope, explicit context['k'] / context.get('k'), strict on/off; keys that also name a builtin"""
+    from mako.lookup import TemplateLookup
+    from mako import runtime
+    so = ctx.stream("oracle.context_values", "oracle", exhaustive=True)
+    sc = ctx.stream("corr.context_values", exhaustive=True)
+    bi = builtin_names()
+    values = [("None", None), ("0", 0), ("''", ""), ("[]", []), ("False", False), ("UNDEFINED", runtime.UNDEFINED), ("'s'", "s")]
+    reqs, metas = [], []
+    for key in ("x", "id", "len"):
+        src = ("${S__(1, %(k)s)}\n<%%def name=\"td()\">${S__(2, %(k)s)}<%%def name=\"inner()\">${S__(3, %(k)s)}</%%def>${inner()}</%%def>\n"
+               "${td()}\n<%%block>${S__(4, %(k)s)}</%%block>\n% if S__(5, %(k)s):\n% endif\n"
+               "${S__(6, context['%(k)s'])}\n${S__(7, context.get('%(k)s'))}\n${S__(8, context.get('%(k)s', 'DFLT'))}\n"
+               "${S__(9, '%(k)s' in context.keys())}\n${S__(10, context.kwargs.get('%(k)s', 'MISSING'))}\n") % {"k": key}
+        for vname, val in values:
+            for strict in (False, True):
+                for imp in (False, True):
+                    so["cases"] += 1
+                    full_src = ("<%namespace file=\"/lib.html\" import=\"libdef\"/>\n" if imp else "") + src
+                    case = Case({"key": key, "value": vname, "ns_import": imp}, full_src, {key: val}, strict, True, "ctxvalue")
+                    tmpl, cexc = compile_case(case)
+                    del G.RECORDS[:]
+                    exc = None
+                    try:
+                        tmpl.render(**{key: val})
+                    except Exception as e:      # noqa: BLE001
+                        exc = e
+                    got = list(G.RECORDS)
+                    ov = G.observe(val)
+                    want = [(i, ov) for i in range(1, 9)] + [(9, "VAL:True"), (10, ov)]
+                    ctx.branch("ctxvalue:%s:%s" % (vname, "ok" if (got == want and exc is None) else "differs"))
+                    if got != want or exc is not None:
+                        violation(ctx, "context-entry-not-bound-for-its-value",
+                                  {"input": full_src, "key": key, "value": vname, "strict": strict},
+                                  {"expected": want[len([1 for a, b in zip(got, want) if a == b]):][:2],
+                                   "observed": (got[-1:] if got else []), "exception": "%s: %s" % (exc_class(exc), str(exc)[:80]) if exc else None},
+                                  "oracle.context_values")
+                    e = Mo.encode_template(full_src, G.IMPORTS)
+                    reqs.append(Mo.request(e, strict, True, imp=["libdef"] if imp else [], ctx=[key] if val is not None else [],
+                                           ctx_none=[key] if val is None else [], bi=bi))
+                    metas.append((case, got, exc, val))
+    for (case, got, exc, val), o in zip(metas, ask_many(ctx, reqs)):
+        sc["cases"] += 1
+        full = Mo.parse_full(o)
+        key = case.desc["key"]
+        pred = full["scopes"][("render_body",)]["res"][key][1]
+        obs = dict(got).get(1)
+        ok = (pred == "vN" and obs == "VAL:None") or (pred == "vo2" and obs is not None and obs == G.observe(val)) \
+            or (pred == "vo3" and obs == "BUILTIN") or (pred == "vU" and obs == "UNDEF") \
+            or (pred == "E" and isinstance(exc, NameError) and STRICT_MSG.match(str(exc)))
+        if not ok:
+            ctx.disagree("corr.context_values", dict(case.key(), key=key, value=case.desc["value"]), pred, [obs, repr(exc)[:80]])
+
+
 # --------------------------------------------------------------------------- random scope trees
 
 def random_trees(ctx):
@@ -842,7 +899,7 @@ def corr_and_oracle(ctx):
 
 
 STEPS = [("product+random", corr_and_oracle), ("extended", extended), ("random_trees", random_trees),
-         ("context_ops", context_ops), ("reserved", reserved_names), ("statement_forms", statement_forms),
+         ("context_ops", context_ops), ("context_values", context_values), ("reserved", reserved_names), ("statement_forms", statement_forms),
          ("kwargs", context_kwargs_in_templates)]
 
 
